@@ -3,7 +3,8 @@ hosts, the requests their runtimes issue, auxiliary clients, fault budget.
 
 Everything is drawn from the rng handed in; the result is a plain dict (it is
 part of the replay file).  Input domain (DESIGN 1.5): proid [A-Za-z0-9_-]{2,20},
-app components [\\w-]+, instance id #%010d, uniqueid 13 characters, endpoint
+app components [\\w-]+, instance id #%010d, uniqueid 13 characters (random [a-z0-9], or base 62 zero-padded as
+appcfg.gen_uniqueid / manifest_unique_name produce them), endpoint
 names [a-z]+ / ports, identity 0..9.
 """
 
@@ -168,6 +169,7 @@ def generate(rng, tier):
         'tail': rng.randrange(0, 12),
     }
     _more_clients(scn)
+    _unique_id_forms(scn)
     return scn
 
 
@@ -211,6 +213,38 @@ def _more_clients(scn):
                             'cid': c['cid'], 'host': host, 'deps': deps, 'seed': xr.getrandbits(32)})
 
 
+_BASE62 = '0123456789abcdefghijklmnopqrstuvwxyzABCDEFGHIJKLMNOPQRSTUVWXYZ'
+
+
+def _unique_id_forms(scn):
+    """Unique ids in the forms the product emits: appcfg.gen_uniqueid writes a number in base 62 (digits, lower and
+    upper case) left-padded with zeros to 13 characters, and every request id a runtime issues is formatted by
+    appcfg.manifest_unique_name / app_unique_name, which pad the id to 13 characters once more (so the unique-id part
+    of a request id is never shorter than 13 characters, whatever the manifest holds).  In about a third of the
+    scenarios (own generator: the rest of the scenario is what it was) the successive containers get related ids, as
+    small numbers and old short manifests give them: the newer id's significant digits end in the older one's
+    (00000000000a1 / 0000000000ba1), or the two differ only in the case of one letter; formatted by the product's own
+    manifest_unique_name."""
+    import random
+    from treadmill import appcfg
+    xr = random.Random((scn['connloss_seed'] * 40503 + 977) % (1 << 32))
+    if xr.random() >= 0.3:
+        return
+    uid = ''.join(xr.choice(_BASE62[1:]) for _ in range(xr.randint(1, 6)))
+    used = set()
+    for c in scn['containers']:
+        if used:
+            if xr.random() < 0.3 and uid.swapcase() != uid and uid.swapcase() not in used:
+                uid = uid.swapcase()
+            else:
+                uid = xr.choice(_BASE62[1:]) + uid
+        used.add(uid)
+        # (a manifest written by gen_uniqueid holds the padded form; an older one the bare digits: same request id)
+        held = uid if xr.random() < 0.5 else '{0:>013s}'.format(uid)
+        c['rsrc_id'] = appcfg.manifest_unique_name({'name': c['instance'], 'uniqueid': held})
+    scn['unique_ids'] = 'related-zero-padded'
+
+
 def describe(scn):
     """Short canonical description of the scenario shape (for hashing/samples)."""
     return {
@@ -223,4 +257,5 @@ def describe(scn):
         'expiries': scn['expiries'],
         'crashes': scn['crashes'],
         'connloss': scn.get('connloss', 0),
+        'unique_ids': scn.get('unique_ids', 'random'),
     }
